@@ -192,6 +192,30 @@ pub fn record(pool_path: &str, w: &mut dyn Write, seed: u64, scale: usize) {
             emit(format!("k_nearest_concave_hull#{i}"), dg(guard(|| mpt.k_nearest_concave_hull(3)), |d, p| d.poly(p)), json!({}));
             emit(format!("outliers#{i}"), dg(guard(|| mpt.outliers(5)), |d, v| { for x in v { d.f(*x); } }), json!({}));
             emit(format!("convex_hull_pts#{i}"), dg(guard(|| mpt.convex_hull()), |d, p| d.poly(p)), json!({}));
+            emit(format!("outlier_ensemble#{i}"), dg(guard(|| mpt.generate_ensemble(2..=6)), |d, vv| { for v in vv { d.w(v.len() as u64); for x in v { d.f(*x); } } }), json!({}));
+            emit(format!("outlier_ensemble_min#{i}"), dg(guard(|| mpt.ensemble_min(2..=6)), |d, v| { for x in v { d.f(*x); } }), json!({}));
+            emit(format!("outlier_ensemble_max#{i}"), dg(guard(|| pts[..].ensemble_max(2..=6)), |d, v| { for x in v { d.f(*x); } }), json!({}));
+            emit(format!("outlier_prepared#{i}"), dg(guard(|| { let pd = mpt.prepared_detector(); (pd.outliers(4), pd.outliers(7)) }), |d, (a, b)| { for x in a.iter().chain(b.iter()) { d.f(*x); } }), json!({}));
+            // points with many exact distance ties (mirror-symmetric lattice sets)
+            let sym: Vec<Point<f64>> = (0..npts / 2).flat_map(|_| { let (x, y) = (rng.gen_range(1..10) as f64, rng.gen_range(0..20) as f64 / 2.0); [Point::new(10.0 - x, y), Point::new(10.0 + x, y)] }).collect();
+            let msym = MultiPoint::new(sym.clone());
+            for (ci, conc) in [1.0f64, 2.0, 3.0].iter().enumerate() {
+                emit(format!("concave_hull_sym{ci}#{i}"), dg(guard(|| msym.concave_hull(*conc)), |d, p| d.poly(p)), json!({}));
+            }
+            emit(format!("k_nearest_concave_hull_sym#{i}"), dg(guard(|| sym.k_nearest_concave_hull(4)), |d, p| d.poly(p)), json!({}));
+        }
+        // ---- large point sets (size-gated code paths): 3000 seeded random points
+        {
+            let big: Vec<Point<f64>> = (0..3000).map(|_| Point::new(rng.gen_range(0..2000) as f64 / 16.0, rng.gen_range(0..2000) as f64 / 16.0)).collect();
+            let mbig = MultiPoint::new(big.clone());
+            emit("outliers_big#0".into(), dg(guard(|| mbig.outliers(8)), |d, v| { for x in v { d.f(*x); } }), json!({}));
+            emit("outlier_ensemble_big#0".into(), dg(guard(|| mbig.generate_ensemble(3..=8)), |d, vv| { for v in vv { d.w(v.len() as u64); for x in v { d.f(*x); } } }), json!({}));
+            emit("outlier_ensemble_min_big#0".into(), dg(guard(|| big[..].ensemble_min(3..=8)), |d, v| { for x in v { d.f(*x); } }), json!({}));
+            emit("outlier_ensemble_max_big#0".into(), dg(guard(|| mbig.ensemble_max(3..=8)), |d, v| { for x in v { d.f(*x); } }), json!({}));
+            emit("concave_hull_big#0".into(), dg(guard(|| mbig.concave_hull(2.0)), |d, p| d.poly(p)), json!({}));
+            emit("k_nearest_concave_hull_big#0".into(), dg(guard(|| mbig.k_nearest_concave_hull(5)), |d, p| d.poly(p)), json!({}));
+            emit("convex_hull_big#0".into(), dg(guard(|| mbig.convex_hull()), |d, p| d.poly(p)), json!({}));
+            emit("udt_big#0".into(), dg(guard(|| TriangulateDelaunay::unconstrained_triangulation(&mbig.0.iter().map(|p| p.0).collect::<LineString<f64>>()).unwrap_or_default()), |d, t| d.tris(t)), json!({}));
         }
         // ---- rayon iterators over the Multi* types: collect must keep input order
         {
